@@ -178,7 +178,7 @@ def prepare(attempt: int, nwriters: int, basedir: str, mode: str = "progress") -
 
 
 def project(raw, msg_of: dict[str, int], mode: str = "progress") -> dict:
-    r = raw.execute("SELECT version, status, context FROM stage_executions WHERE ref_id = 'a'").fetchone()
+    r = raw.execute("SELECT version, status, context FROM stage_executions WHERE ref_id = 'a' AND execution_id LIKE 'W-%'").fetchone()
     ctx = json.loads(r["context"] or "{}")
     if mode == "suspend":
         qids = {x["id"] for x in raw.execute("SELECT id FROM queue_messages")}
